@@ -203,6 +203,11 @@ def build_harness(isa, mode, defines=()):
     return exe, ""
 
 
+def existing_modules(mods):
+    """Lean modules whose source file exists (property files appear as the proofs land)"""
+    return [m for m in mods if os.path.exists(os.path.join(LEAN, m.replace(".", "/") + ".lean"))]
+
+
 def norm_cfg(c):
     return (c[0], c[1], tuple(c[2]) if len(c) > 2 else ())
 
